@@ -214,6 +214,9 @@ def gen_shape(rng, thorough, decade=None):
         turns = rng.randint(1, 3)
     if kind == "thread":
         sweep = math.pi
+    if kind in ("helix_const", "thread") and rng.random() < 0.3:
+        # steep: the climb dominates the path length (a lead screw, a deep plunge along a short arc)
+        h = rng.choice([-1, 1]) * loguniform(rng, 4.0, 40.0) * R * (sweep + 2 * math.pi * (turns - 1))
     if kind == "arc_radius" and abs(sweep - math.pi) < 1e-3:
         sweep = math.pi / 2       # the centre of a near-half-turn is ill-conditioned in binary64
     a1 = a0 + (sweep if ccw else -sweep)
